@@ -443,6 +443,9 @@ static uint32_t _composite_cp(uint32_t cp, uint32_t cp2) {
 
 static uint8_t _combin_class(uint32_t cp) {
     const uint8_t **plane, *row;
+    if (unlikely(cp > _UNICODE_MAX)) { /* not a table index */
+        return 0;
+    }
     plane = UNWIF_combin[cp >> 16];
     if (!plane)
         return 0;
